@@ -32,6 +32,8 @@ type Collector struct {
 	assumptions []string
 	exhaustive  *bool
 	extra       map[string]interface{}
+	bulkEval    int
+	bulkNontriv int
 }
 
 // New creates a collector for one test function of a property.
@@ -71,6 +73,24 @@ func (c *Collector) Case(nontrivial bool, canonical string, labels []string, sam
 			}
 		}
 	}
+}
+
+// Bulk adds cases that were enumerated without being stored one by one: n evaluations of which
+// k were distinct and non-trivial (both measured by the caller).
+func (c *Collector) Bulk(n, k int) {
+	c.mu.Lock()
+	c.bulkEval += n
+	c.bulkNontriv += k
+	c.mu.Unlock()
+}
+
+// Sample adds a sample case directly.
+func (c *Collector) Sample(s interface{}) {
+	c.mu.Lock()
+	if len(c.samples) < maxSamples {
+		c.samples = append(c.samples, s)
+	}
+	c.mu.Unlock()
 }
 
 // Label bumps a label counter outside of Case.
@@ -171,6 +191,8 @@ type Partial struct {
 	Assumptions []string               `json:"assumptions"`
 	Exhaustive  *bool                  `json:"exhaustive,omitempty"`
 	Extra       map[string]interface{} `json:"extra"`
+	BulkEval    int                    `json:"bulk_evaluations"`
+	BulkNontriv int                    `json:"bulk_nontrivial"`
 }
 
 // Flush writes the partial evidence file if VERIF_STATS_DIR is set.
@@ -185,6 +207,7 @@ func (c *Collector) Flush() {
 		Name: c.Name, Property: c.Property, Rule: c.Rule, Evaluations: c.evaluations,
 		Labels: c.labels, Samples: c.samples, Excluded: c.excluded, Known: c.known,
 		Notes: c.notes, Assumptions: c.assumptions, Exhaustive: c.exhaustive, Extra: c.extra,
+		BulkEval: c.bulkEval, BulkNontriv: c.bulkNontriv,
 	}
 	for h := range c.nontrivial {
 		p.Nontrivial = append(p.Nontrivial, h)
